@@ -226,6 +226,16 @@ def h_oddity(kind):
         flags = eng.sym_int('flags', 0, 255)
         mid = eng.sym_int('mid', 0, 0xFFFFFFFF)
         data = world.restamp(d0, None, flags=flags, mid=mid)
+    elif kind == 'init_sa_bytes':
+        # a genuine IKE_SA_INIT request (new initiator SPI) whose first transform (type, id and attribute: 8 bytes) is arbitrary
+        d0 = bytearray(a.ike_sa_init_req_data)
+        d0[0:8] = b'NEWSPI!!'
+        from symx import core as _c
+        region = eng.sym_bytes('transform_bytes', 8)
+        items = list(d0)
+        off = 28 + 4 + 4 + 4 + d0[28 + 4 + 4 + 2] + 4          # header, SA generic header, proposal header, proposal fields, SPI, transform header
+        items[off:off + 8] = _c.SymBytes.lift(region).items
+        data = _c.SymBytes(items).lower()
     elif kind == 'binary_vendor':
         vid = eng.sym_bytes('vendor', 4)
         base = m.Message.parse(bytes(a.ike_sa_init_req_data))
@@ -323,8 +333,8 @@ def build_instances(tier):
                     continue
                 inst.append(Instance(f'datagram n={nb} src={src} session={pre}', h_datagram, (nb, src, pre), native=nat(h_datagram),
                                      engine_kw={'max_ticks': 3000 + 80 * nb}))
-    for kind in ('unknown_exchange', 'init_for_existing_spi', 'binary_vendor', 'binary_identity'):
-        inst.append(Instance(f'oddity {kind}', h_oddity, (kind,), native=nat(h_oddity)))
+    for kind in ('unknown_exchange', 'init_for_existing_spi', 'binary_vendor', 'binary_identity', 'init_sa_bytes'):
+        inst.append(Instance(f'oddity {kind}', h_oddity, (kind,), native=nat(h_oddity), engine_kw={'max_ticks': 20000, 'max_wall_s': 600}))
     for kind in (('acquire', 'expire_known') if tier == 'quick' else ('acquire', 'acquire_unknown_index', 'acquire_unknown_peer', 'expire_unknown', 'expire_known')):
         for vary in ('cut', 'type'):
             inst.append(Instance(f'kernel event {kind} vary={vary}', h_kernel_event, (kind, vary), native=nat(h_kernel_event)))
